@@ -417,8 +417,10 @@ func (c *Context) QuoInteger(d, x, y *Decimal) (Condition, error) {
 	d.Coeff.Quo(a, b)
 	d.Form = Finite
 	if d.NumDigits() > int64(c.Precision) {
+		// The NaN does not take the sign the quotient would have had.
 		d.Set(decimalNaN)
 		res |= DivisionImpossible
+		return c.goError(res)
 	}
 	d.Exponent = 0
 	d.Negative = neg
